@@ -59,24 +59,32 @@ def run(prop, tier):
             ("wfcd", {"CKeys": {1, 2}, "CVals": {1, 2, 3}, "NWrites": 2, "NFlushes": 2, "NCompactions": 1,
                       "Procs": {"w", "f", "c", "d"}, "Guard287": True}),
         ]
+        # two ordinary compactions overlapping in time (all visible tables -> last level, L0 -> L1)
+        scen.append(("wfcc", {"CKeys": {1, 2}, "CVals": {1, 2, 3}, "NWrites": 2, "NFlushes": 2, "NCompactions": 1,
+                              "Procs": {"w", "f", "c", "c2"}, "Guard287": True, "CScripted": True}))
         # the caller's seqno.next() and the insert as two steps: other threads run in between
         scen.append(("w2fr", {"CKeys": {1, 2}, "CVals": {1, 2, 3}, "NWrites": 3, "NFlushes": 1, "NCompactions": 0,
                               "NRotates": 1, "Procs": {"w", "f", "r"}, "Guard287": True, "SplitW": True}))
         for _, consts in scen:
             consts.setdefault("NRotates", 0)
             consts.setdefault("SplitW", False)
+            consts.setdefault("CScripted", False)
         if tier == "thorough":
             scen.append(("wfc2", {"CKeys": {1, 2}, "CVals": {1, 2, 3}, "NWrites": 4, "NFlushes": 2,
-                                  "NCompactions": 2, "NRotates": 0, "SplitW": False, "Procs": {"w", "f", "c"}, "Guard287": True}))
+                                  "NCompactions": 2, "NRotates": 0, "SplitW": False, "CScripted": False, "Procs": {"w", "f", "c"}, "Guard287": True}))
             scen.append(("wfcr", {"CKeys": {1, 2}, "CVals": {1, 2, 3}, "NWrites": 3, "NFlushes": 2,
-                                  "NCompactions": 1, "NRotates": 1, "SplitW": False, "Procs": {"w", "f", "c", "r"},
+                                  "NCompactions": 1, "NRotates": 1, "SplitW": False, "CScripted": False, "Procs": {"w", "f", "c", "r"},
                                   "Guard287": True}))
             scen.append(("w2fcr", {"CKeys": {1, 2}, "CVals": {1, 2, 3}, "NWrites": 3, "NFlushes": 1,
-                                   "NCompactions": 1, "NRotates": 1, "SplitW": True,
+                                   "NCompactions": 1, "NRotates": 1, "SplitW": True, "CScripted": False,
                                    "Procs": {"w", "f", "c", "r"}, "Guard287": True}))
+            scen.append(("wfcc2", {"CKeys": {1, 2}, "CVals": {1, 2, 3}, "NWrites": 3, "NFlushes": 2,
+                                   "NCompactions": 2, "NRotates": 0, "SplitW": False, "CScripted": True,
+                                   "Procs": {"w", "f", "c", "c2"}, "Guard287": True}))
         states = trans = 0
         scheds = []
         witnesses = {}
+        scripted_keys = set()
         forced_first = []
         known = vlib.load_known()
         listed = {f["id"]: f for f in known.get("findings", []) if f.get("property") == prop}
@@ -123,6 +131,9 @@ def run(prop, tier):
             ss = schedules_from(out)
             mx = max((len(s) for s in ss), default=0)
             ss = [s for s in ss if len(s) >= mx - 2]
+            if consts.get("CScripted"):
+                for s_ in ss:
+                    scripted_keys.add(json.dumps(s_, sort_keys=True))
             scheds.extend(ss)
         # dedupe, cap
         seen = set()
@@ -157,7 +168,8 @@ def run(prop, tier):
         outp = os.path.join(work, "conc-trace.ndjson")
         with open(inp, "w") as f:
             for i, s in enumerate(uniq):
-                f.write(json.dumps({"id": i, "sched": s, "phys": i % 12}) + "\n")
+                f.write(json.dumps({"id": i, "sched": s, "phys": i % 12,
+                                    "cscripted": json.dumps(s, sort_keys=True) in scripted_keys}) + "\n")
         r = subprocess.run([vlib.HARNESS, "conc", "--in", inp, "--out", outp, "--nkeys", "2",
                             "--scratch", os.path.join(work, "ctrees")],
                            stdout=subprocess.PIPE, stderr=subprocess.PIPE, text=True)
